@@ -6,6 +6,8 @@ package gens
 import (
 	"strconv"
 	"strings"
+
+	"verif/internal/ref/scriptref"
 )
 
 // BoundClass classifies an index or slice bound relative to the length n of
@@ -169,3 +171,18 @@ func (x JPExpr) HasFrag(kind string) bool {
 	}
 	return false
 }
+
+func nodeUsesRoot(n *scriptref.Node) bool {
+	if n == nil {
+		return false
+	}
+	if n.Path != nil && n.Path.Root {
+		return true
+	}
+	return nodeUsesRoot(n.L) || nodeUsesRoot(n.R)
+}
+
+// RootFilter reports whether the fragment is a filter with a $-rooted
+// operand (its verdict depends on the whole document, so a case holding one
+// cannot be re-rooted at a sub-document when it is shrunk).
+func (f JPFrag) RootFilter() bool { return f.K == "filter" && nodeUsesRoot(f.F) }
